@@ -27,6 +27,26 @@ TARGET_OF = {"simc": "target", "seqc": "target-seq", "simels": "target-els", "si
 def bin_path(pkg):
     return os.path.join(SIM, TARGET_OF.get(pkg, "target"), "sim", pkg)
 SCRATCH = os.path.join(VERIF, "scratch")
+
+
+def _mount_base():
+    """where worker directories are bind-mounted (erg's tables are keyed by absolute path, so the
+    path is part of the execution): /verif/scratch whenever /verif exists, so that a copy of this
+    tree elsewhere (vp run's snapshot) explores exactly the executions /verif itself would; this
+    copy's own scratch otherwise. Every harness process mounts in its private namespace, so copies
+    running side by side do not see each other."""
+    fixed = "/verif/scratch"
+    try:
+        if os.path.isdir("/verif"):
+            os.makedirs(fixed, exist_ok=True)
+            if os.access(fixed, os.W_OK):
+                return fixed
+    except OSError:
+        pass
+    return SCRATCH
+
+
+MOUNT_BASE = _mount_base()
 EVIDENCE = os.path.join(VERIF, "evidence")
 REPLAY = os.path.join(VERIF, "replay")
 KNOWN = os.path.join(VERIF, "known_findings.json")
